@@ -19,14 +19,14 @@ From OV Require Import Proofs.RoundMatmul.
    Proofs: Proofs/MatNormLawsBase.v (real sums, maxima), MatNormLawsP.v (norm_p with 0^p = 0), MatNormLawsAx.v (norm
    axioms, transpose), MatNormLawsMink.v (Minkowski), MatNormLawsMul.v (products), MatNormLawsMore.v (subtraction, comparison, monotonicity in p, identity),
    MatNormLawsRound.v (standard model),
-   MatNormLawsFloat.v (the binary64 instance through Flocq), MatNormLawsStruct.v (structure, every arithmetic).
+   MatNormLawsFloat.v / MatNormLawsFloatOrd.v (the binary64 instance through Flocq), MatNormLawsStruct.v (structure, every arithmetic).
    All over the real instance [MatNormsR.AR]/[MatNormsR.SAR] of the model functions (the rounding block: the
    standard-model instance against it).  Axioms: the four standard real-number/classical ones, as for [norms_real].
    ====================================================================================================== *)
 From Coq Require Import Reals Lra Lia.
 From OV Require Import Base.RoundModel Proofs.RoundFlx.
 From OV Require Proofs.RoundNorm2 Proofs.MatNormLawsBase Proofs.MatNormLawsP Proofs.MatNormLawsAx Proofs.MatNormLawsMink
-  Proofs.MatNormLawsMul Proofs.MatNormLawsMore Proofs.MatNormLawsRound Proofs.MatNormLawsFloat Proofs.MatNormLawsStruct.
+  Proofs.MatNormLawsMul Proofs.MatNormLawsMore Proofs.MatNormLawsRound Proofs.MatNormLawsFloat Proofs.MatNormLawsFloatOrd Proofs.MatNormLawsStruct.
 
 (* ---------- norm_p with a power function that is right at zero (package matnorm) ----------
    [MatNormLawsP.pw x p] = if x = 0 then 0 else Rpower x p : the real power with 0^p = 0, which is what libm's pow returns
@@ -614,6 +614,36 @@ Check matnorm_float_nan_ignored : (let m1 := @mkM AF [Coq.Floats.PrimFloat.nan] 
   (exists x, mnorm_frob (S:=SAF) m1 = Ok x /\ Coq.Floats.PrimFloat.is_nan x = true) /\
   mnorm_1 (S:=SAF) m2 = Ok 1%float /\ mnorm_inf (S:=SAF) m2 = Ok 0%float /\ mnorm_max (S:=SAF) m2 = Ok 1%float)%R.
 Print Assumptions matnorm_float_nan_ignored.
+
+(* the two order laws behind [norms_spec] hold for the comparison of ALL binary64 values (NaN, infinities included), so
+   [norms_spec] applies to the float instance with no hypothesis on the entries: norm_1 is 0.0 or a computed column sum, and
+   `R < sum_j` is false for every computed column sum -- satisfied vacuously by a NaN sum, which is precisely how f64::max skips it *)
+Theorem float_order_laws : (Proofs.MatNorms.OrdLaws AF)%R.
+Proof. exact MatNormLawsFloatOrd.AF_OrdLaws. Qed.
+Check float_order_laws : (Proofs.MatNorms.OrdLaws AF)%R.
+Print Assumptions float_order_laws.
+
+Theorem norms_spec_float : (forall (m : matrix AF), Proofs.Matrix.wf m ->
+  (exists R, mnorm_1 (S:=SAF) m = Ok R /\ (forall j, (j < cols m)%nat -> Coq.Floats.PrimFloat.ltb R (colsum (SS:=SAF) m j) = false) /\
+             (R = 0%float \/ exists j, (j < cols m)%nat /\ R = colsum (SS:=SAF) m j)) /\
+  (exists R, mnorm_inf (S:=SAF) m = Ok R /\ (forall i, (i < rows m)%nat -> Coq.Floats.PrimFloat.ltb R (rowsum (SS:=SAF) m i) = false) /\
+             (R = 0%float \/ exists i, (i < rows m)%nat /\ R = rowsum (SS:=SAF) m i)) /\
+  (exists R, mnorm_max (S:=SAF) m = Ok R /\
+             (forall i j, (i < rows m)%nat -> (j < cols m)%nat -> Coq.Floats.PrimFloat.ltb R (f_abs (entry (A:=AF) m i j)) = false) /\
+             (R = 0%float \/ exists i j, (i < rows m)%nat /\ (j < cols m)%nat /\ R = f_abs (entry (A:=AF) m i j))))%R.
+Proof. exact MatNormLawsFloatOrd.norms_spec_float_lemma. Qed.
+Check norms_spec_float : (forall (m : matrix AF), Proofs.Matrix.wf m ->
+  (exists R, mnorm_1 (S:=SAF) m = Ok R /\ (forall j, (j < cols m)%nat -> Coq.Floats.PrimFloat.ltb R (colsum (SS:=SAF) m j) = false) /\
+             (R = 0%float \/ exists j, (j < cols m)%nat /\ R = colsum (SS:=SAF) m j)) /\
+  (exists R, mnorm_inf (S:=SAF) m = Ok R /\ (forall i, (i < rows m)%nat -> Coq.Floats.PrimFloat.ltb R (rowsum (SS:=SAF) m i) = false) /\
+             (R = 0%float \/ exists i, (i < rows m)%nat /\ R = rowsum (SS:=SAF) m i)) /\
+  (exists R, mnorm_max (S:=SAF) m = Ok R /\
+             (forall i j, (i < rows m)%nat -> (j < cols m)%nat -> Coq.Floats.PrimFloat.ltb R (f_abs (entry (A:=AF) m i j)) = false) /\
+             (R = 0%float \/ exists i j, (i < rows m)%nat /\ (j < cols m)%nat /\ R = f_abs (entry (A:=AF) m i j))))%R.
+Print Assumptions norms_spec_float.
+Example norms_spec_float_nonvacuous :
+  Proofs.Matrix.wf (@mkM AF [Coq.Floats.PrimFloat.nan; 1%float; (-2)%float; Coq.Floats.PrimFloat.infinity] 2 2).
+Proof. reflexivity. Qed.
 
 (* ---------- structure: matrix norms through the vector norms, for EVERY arithmetic (package matnorm) ----------
    no ring / order / field law is used, so these hold bit for bit at the float instance: the column sum maximised by
